@@ -681,6 +681,60 @@ def provenance(ctx, rid='C02-R8'):
 
 
 
+@rule('C02', 'C02-R9', 'which mate a sequence element sits on is an index 0 / 1 (or None when absent): such an index is never used as a truth value - mate 0 '
+                       '(read 1) is falsy, a test `if self.x_read:` silently treats "on read 1" as "absent"')
+def r9(ctx):
+    files = [BASEDEMUX] + [p for p in ctx.ix.pyfiles() if p.startswith(DEMUXMODS)]
+    # the index attributes: self.<name> assigned in a constructor from a parameter whose name says "read" and whose default is an int or None
+    idx_attrs = set()
+    for rel in files:
+        m = ctx.ix.module(rel)
+        for fdef in [x for x in ast.walk(m.tree) if isinstance(x, ast.FunctionDef) and x.name == '__init__']:
+            params = {a_.arg for a_ in fdef.args.args + fdef.args.kwonlyargs if 'read' in a_.arg.lower()}
+            for s_ in walk_no_nested(fdef):
+                if isinstance(s_, ast.Assign) and isinstance(s_.value, ast.Name) and s_.value.id in params:
+                    for t_ in s_.targets:
+                        if isinstance(t_, ast.Attribute) and isinstance(t_.value, ast.Name) and t_.value.id == 'self':
+                            idx_attrs.add(t_.attr)
+    ctx.need('C02-R9', len(idx_attrs), 2, 'mate-index attributes')
+    bad = []
+    n = 0
+
+    def boolctx(e, where, rel, out):
+        if isinstance(e, ast.Attribute) and isinstance(e.value, ast.Name) and e.value.id == 'self' and e.attr in idx_attrs:
+            out.append((rel, e, where))
+        elif isinstance(e, ast.UnaryOp) and isinstance(e.op, ast.Not):
+            boolctx(e.operand, where, rel, out)
+        elif isinstance(e, ast.BoolOp):
+            for v in e.values:
+                boolctx(v, where, rel, out)
+    for rel in files:
+        m = ctx.ix.module(rel)
+        for node in ast.walk(m.tree):
+            if isinstance(node, (ast.If, ast.While)):
+                n += 1
+                boolctx(node.test, 'an if / while test', rel, bad)
+            elif isinstance(node, ast.IfExp):
+                n += 1
+                boolctx(node.test, 'a conditional expression', rel, bad)
+            elif isinstance(node, ast.comprehension):
+                for t_ in node.ifs:
+                    boolctx(t_, 'a comprehension filter', rel, bad)
+            elif isinstance(node, ast.BoolOp):
+                for v in node.values[:-1]:
+                    if isinstance(v, ast.Attribute) and isinstance(v.value, ast.Name) and v.value.id == 'self' and v.attr in idx_attrs and isinstance(node.op, ast.Or):
+                        bad.append((rel, v, '`x or default`'))
+    seen = set()
+    for rel, e, where in bad:
+        if id(e) in seen:
+            continue
+        seen.add(id(e))
+        ctx.emit('C02-R9', False, rel, e, f'mate index `{src(e)}` is used as a truth value in {where}: index 0 (read 1) counts as "not present", the element is then neither cut nor recorded',
+                 key=f'mate-index-truthiness:{src(e)}', what='a mate index is tested for truth instead of `is None`')
+    if not bad:
+        ctx.emit('C02-R9', True, BASEDEMUX, None, f'mate indices {sorted(idx_attrs)} are compared with None, never tested for truth ({n} tests inspected)', key='mate-index-truthiness')
+
+
 META = {
     'text': ('Decides, for each registered strategy class, properties of the layout table obtained by constant propagation through its constructor '
              'chain (incl. composite strategies and post-init capture adjustments): sequence and quality are cut with identical slices in every demultiplex '
